@@ -507,4 +507,104 @@ theorem innermost_insert_applies (S : Schema) (hts : TextStableP S) (ty0 : TypeI
       exact inside_insert_applies S hts ty0 a0 m0 K pos r hf hv hn ho hp C hnC _ hs hg'.2
     · simp at hg'
 
+/-! ### the second pass of `drop_point` -/
+
+/-- a pass of `drop_point` that ran out refused at every depth -/
+theorem dropLoop_miss (S : Schema) (r : RPos) (content : List Node) (pass2 : Bool) : ∀ (n : Nat),
+    dropLoop S r content pass2 n = some none → ∀ d, d < n → dropFits S r content pass2 d = some false
+  | 0, _, d, hd => by omega
+  | n + 1, h, d, hd => by
+    simp only [dropLoop] at h
+    split at h
+    · simp at h
+    · split at h
+      · simp at h
+      · split at h <;> simp at h
+    · rename_i hf
+      rcases Nat.lt_or_ge d n with hlt | hge
+      · exact dropLoop_miss S r content pass2 n h d hlt
+      · have : d = n := by omega
+        subst this; exact hf
+
+/-- where a pass of `drop_point` answers -/
+theorem dropLoop_hit (S : Schema) (r : RPos) (content : List Node) (pass2 : Bool) : ∀ (n p : Nat), n ≤ r.depth + 1 →
+    dropLoop S r content pass2 n = some (some p) →
+    ∃ d, d ≤ r.depth ∧ dropFits S r content pass2 d = some true ∧
+      ((d = r.depth ∧ p = r.pos) ∨
+       (d < r.depth ∧ AtBoundary r d (if dropBias r d > 0 then .after else .before)
+          (r.index d + (if dropBias r d > 0 then 1 else 0)) p))
+  | 0, p, _, h => by simp [dropLoop] at h
+  | d + 1, p, hd, h => by
+    simp only [dropLoop] at h
+    split at h
+    · simp at h
+    · rename_i hfit
+      by_cases hdd : d = r.depth
+      · have hb : dropBias r d = 0 := by simp [dropBias, hdd]
+        rw [hb] at h
+        simp only [if_true, Option.some.injEq] at h
+        exact ⟨d, by omega, hfit, .inl ⟨hdd, h.symm⟩⟩
+      · have hlt : d < r.depth := by omega
+        refine ⟨d, by omega, hfit, .inr ⟨hlt, by omega, ?_⟩⟩
+        by_cases hbias : 2 * r.pos ≤ r.start (d + 1) + r.end_ (d + 1)
+        · have hb : dropBias r d = -1 := by simp [dropBias, hdd, hbias]
+          rw [hb] at h ⊢
+          simp only [show ¬ ((-1 : Int) = 0) by decide, if_false, show ((-1 : Int) < 0) by decide, if_true] at h
+          simp only [show ¬ ((-1 : Int) > 0) by decide, if_false, Nat.add_zero]
+          split at h
+          · simp at h
+          · rename_i p' hp'
+            simp only [Option.some.injEq] at h
+            subst h
+            first | exact ⟨rfl, hp'⟩ | exact ⟨trivial, hp'⟩ | exact hp'
+        · have hb : dropBias r d = 1 := by simp [dropBias, hdd, hbias]
+          rw [hb] at h ⊢
+          simp only [show ¬ ((1 : Int) = 0) by decide, if_false, show ¬ ((1 : Int) < 0) by decide] at h
+          simp only [show ((1 : Int) > 0) by decide, if_true]
+          split at h
+          · simp at h
+          · rename_i p' hp'
+            simp only [Option.some.injEq] at h
+            subst h
+            have hia : r.indexAfter d = r.index d + 1 := by
+              unfold RPos.indexAfter
+              rw [if_neg (by simp [hdd])]
+            exact ⟨hia.symm, hp'⟩
+    · exact dropLoop_hit S r content pass2 d p (by omega) h
+
+/-- `replace_step` on a non-empty request that does not fit trivially is the Fitter's answer -/
+theorem replaceStep_nontrivial (S : Schema) (doc : Node) (f t : Nat) (sl : Slice)
+    (hne : ¬ (f = t ∧ sl.size = 0)) (h : fitsTriviallyO S doc f t sl = some false) :
+    ∃ rf rt, doc.resolve f = some rf ∧ doc.resolve t = some rt ∧
+      replaceStep S doc f t sl = fitterFit S doc rf rt sl (fitFuel S sl) := by
+  unfold replaceStep
+  rw [if_neg (by simpa using hne)]
+  unfold fitsTriviallyO at h
+  split at h
+  · rename_i rf rt hrf hrt
+    exact ⟨rf, rt, hrf, hrt, by simp only [hrf, hrt, h]⟩
+  · simp at h
+
+/-- **an answer of the second pass of `drop_point` never fits trivially**: the first pass refused the content at every
+    depth, in particular at the depth and index of the answer -/
+theorem dropPass2_not_trivial (S : Schema) {ty0 : TypeId} {a0 : Attrs} {m0 : Marks} {K : List Node} {pos : Nat}
+    {r : RPos} (hf : (Node.elem ty0 a0 m0 K).resolve pos = some r) (hn : fnorm K = true) (C : List Node) (p : Nat)
+    (h1 : dropLoop S r C false (r.depth + 1) = some none)
+    (h2 : dropLoop S r C true (r.depth + 1) = some (some p)) :
+    fitsTriviallyO S (.elem ty0 a0 m0 K) p p ⟨C, 0, 0⟩ = some false := by
+  have R := resolve_resolved hf
+  obtain ⟨d, hd, _, hcase⟩ := dropLoop_hit S r C true (r.depth + 1) p (Nat.le_refl _) h2
+  have hmiss := dropLoop_miss S r C false (r.depth + 1) h1 d (by omega)
+  simp only [dropFits, Bool.not_false, if_true] at hmiss
+  rcases hcase with ⟨hde, hp⟩ | ⟨hlt, hat⟩
+  · subst hde
+    have hb : dropBias r r.depth = 0 := by simp [dropBias]
+    rw [hb] at hmiss
+    simp only [Int.lt_irrefl, if_false, Nat.add_zero] at hmiss
+    rw [hp, R.pos_eq]
+    simp only [fitsTriviallyO, hf, fitsTriviallyR, beq_self_eq_true, Bool.and_self, if_true]
+    exact hmiss
+  · rw [boundary_fitsTrivially S hf hn d _ _ p (.inl hlt) hat C]
+    exact hmiss
+
 end PM
